@@ -1139,10 +1139,20 @@ pub fn cmd_leak(a: &Args) -> i32 {
         if e % 2 == 0 {
             let mut c = make_case(&ra, e / 2);
             // a quarter of the histories also contain a fault: what was not delivered must still be released
-            if e % 8 == 6 {
+            if rng.chance(1, 4) {
                 let k = rng.below(c.len + 2) as i64;
                 c.cfg.inject = match rng.below(3) {
-                    0 => Inject::Closure(k),
+                    0 => {
+                        // make sure a closure runs: chunked for_each / fold on the first thread
+                        let n = rng.range(2, 5);
+                        let op = match rng.below(3) {
+                            0 => Op::ForEach { n },
+                            1 => Op::EnumForEach { n },
+                            _ => Op::Fold { n },
+                        };
+                        c.cfg.scripts[0].pre.insert(0, op);
+                        Inject::Closure(k)
+                    }
                     1 => Inject::Drop(k),
                     _ => Inject::WrappedNext(k),
                 };
